@@ -42,6 +42,9 @@ pub enum Op {
     Read { width: u64, addr: u64 },
     ReadBytes { addr: u64, len: u64 },
     Guest { template: usize, addr: u64, value: u128 },
+    /// mem_resize_section on the `area`-th area (whether it must succeed is C10's question; here: bytes
+    /// that stay keep their value, bytes that (re)appear read as zero, whatever happened in between)
+    Resize { area: usize, new_len: u64 },
 }
 
 #[derive(Clone, Debug, Serialize, Deserialize)]
@@ -133,7 +136,7 @@ impl Property for C08 {
         let mut ops = vec![];
         for row in tape.iter().skip(1) {
             let mut t = Tape::new(row);
-            let kind = t.weighted(&[25, 15, 20, 15, 25]);
+            let kind = t.weighted(&[25, 15, 20, 15, 25, 5]);
             let addr = gen_addr(&mut t, &areas);
             let op = match kind {
                 0 => {
@@ -145,6 +148,7 @@ impl Property for C08 {
                 1 => Op::WriteBytes { addr, len: gen_len(&mut t, &areas).min(0x4000), seed: t.raw() },
                 2 => Op::Read { width: t.pick(&[1u64, 2, 4, 8, 16]), addr },
                 3 => Op::ReadBytes { addr, len: gen_len(&mut t, &areas) },
+                5 => Op::Resize { area: t.below(8) as usize, new_len: match t.below(4) { 0 => 0, 1 => t.below(0x40), _ => t.below(0x1800) } },
                 _ => Op::Guest { template: t.below(TEMPLATES.len() as u64) as usize, addr, value: (t.raw() as u128) | ((t.raw() as u128) << 64) },
             };
             ops.push(op);
@@ -182,10 +186,56 @@ impl Property for C08 {
         let mut classes: Vec<&'static str> = vec![];
         for (n, op) in c.ops.iter().enumerate() {
             let desc = format!("op #{} {:x?}", n, op);
+            if let Op::Resize { area, new_len } = op {
+                if model.len() < 2 {
+                    continue;
+                }
+                let i = 1 + area % (model.len() - 1); // never the code area (index 0): the guest templates live there
+                let start = model[i].start;
+                if model.iter().filter(|a| a.start == start).count() > 1 {
+                    continue; // two areas share this start (one of them empty): which one is meant is left open
+                }
+                let r = api(|| ax.mem_resize_section(start, *new_len));
+                match &r {
+                    Api::Panic(p) => {
+                        out.verdict = Verdict::Fail { sig: format!("C08|resize|{}", p.signature()), msg: format!("{} crashed: {}", desc, r.short()) };
+                        out.nontrivial = true;
+                        return out;
+                    }
+                    Api::Ok(_) => {
+                        model[i].data.resize(*new_len as usize, 0);
+                        classes.push("resize");
+                        let (s0, l0) = (model[i].start as u128, model[i].data.len() as u128);
+                        if model.iter().enumerate().any(|(k, a)| k != i && l0 > 0 && a.data.len() > 0 && s0 < a.start as u128 + a.data.len() as u128 && (a.start as u128) < s0 + l0) {
+                            // an overlap was accepted: that is C10's violation, the byte-store model ends here
+                            for cl in classes {
+                                out = out.class(cl);
+                            }
+                            return out.class("resize-accepted-an-overlap (C10 decides)");
+                        }
+                    }
+                    Api::Err(_) => {}
+                }
+                let meta = ax.verif_area_meta();
+                for a in &model {
+                    let got = ax.verif_area_data(a.start).unwrap_or(&[]);
+                    if meta.len() != model.len() || got != a.data.as_slice() {
+                        let off = got.iter().zip(a.data.iter()).position(|(x, y)| x != y).unwrap_or(got.len().min(a.data.len()));
+                        out.verdict = Verdict::Fail {
+                            sig: "C08|resize|bytes-not-kept-or-not-zero".into(),
+                            msg: format!("after {} ({}): area {:#x} ({} bytes, model {}) differs from the byte-store model at +{:#x}: {:02x?} vs {:02x?}", desc, r.short(), a.start, got.len(), a.data.len(), off, got.get(off), a.data.get(off)),
+                        };
+                        out.nontrivial = true;
+                        return out;
+                    }
+                }
+                continue;
+            }
             let (addr, len) = match op {
                 Op::Write { width, addr, .. } | Op::Read { width, addr } => (*addr, *width),
                 Op::WriteBytes { addr, len, .. } | Op::ReadBytes { addr, len } => (*addr, *len),
                 Op::Guest { template, addr, .. } => (*addr, TEMPLATES[*template].1),
+                Op::Resize { .. } => unreachable!(),
             };
             let is_write = matches!(op, Op::Write { .. } | Op::WriteBytes { .. }) || matches!(op, Op::Guest { template, .. } if TEMPLATES[*template].2);
             let hit = find(&model, addr, len);
@@ -246,6 +296,7 @@ impl Property for C08 {
                     _ => ax.mem_read_128(*addr).map(|v| v.to_le_bytes().to_vec()),
                 }),
                 Op::ReadBytes { addr, len } => api(|| ax.mem_read_bytes(*addr, *len)),
+                Op::Resize { .. } => unreachable!(),
                 Op::Guest { template, addr, value } => {
                     let (_, w, st) = TEMPLATES[*template];
                     ax.reg_write_64(SR::RIP, offs[*template]).unwrap();
@@ -352,7 +403,7 @@ impl Property for C08 {
     }
 
     fn rule(&self) -> String {
-        "cases: layouts of 1–5 areas (sizes 0…0x3000, one possibly ending at 2^64, a third of them directly adjacent to their predecessor) and histories of ≤39 operations — typed API writes/reads of 1/2/4/8/16 bytes, byte-slice writes/reads, and guest MOV/MOVUPS loads and stores executed with step() — at addresses inside, at first/last bytes, around both edges, at 0/2^63/2^64−k and uniform, with lengths incl. 0, area size±1, 2^32, 2^63, 2^64−1; a byte-map model decides success and contents; the full contents of every area are compared with the model after every operation; non-trivial = a write followed by an overlapping read of another width, an access within 16 bytes of an edge, or an extreme address/length; distinct by hash of the history".into()
+        "cases: layouts of 1–5 areas (sizes 0…0x3000, one possibly ending at 2^64, a third of them directly adjacent to their predecessor) and histories of ≤39 operations — typed API writes/reads of 1/2/4/8/16 bytes, byte-slice writes/reads, guest MOV/MOVUPS loads and stores executed with step(), and (5 %) mem_resize_section of an area (kept bytes keep their value, bytes that reappear read as zero) — at addresses inside, at first/last bytes, around both edges, at 0/2^63/2^64−k and uniform, with lengths incl. 0, area size±1, 2^32, 2^63, 2^64−1; a byte-map model decides success and contents; the full contents of every area are compared with the model after every operation; non-trivial = a write followed by an overlapping read of another width, an access within 16 bytes of an edge, or an extreme address/length; distinct by hash of the history".into()
     }
     fn required_classes(&self, _tier: Tier) -> Vec<String> {
         vec!["in-bounds".into(), "out-of-bounds".into(), "edge-access".into(), "extreme-address-or-length".into(), "write-then-overlapping-read-of-other-width".into(), "runs-into-adjacent-area".into()]
